@@ -206,6 +206,23 @@ def run(ctx):
     ctx.check("R4", ce, bool(guard) and leaves_empty_handed(guard[0].body), "inactive-contributes-nothing", "a conditional whose condition does not hold contributes nothing")
     ctx.floor("R4", 3)
 
+    # ---- R5 tokeniser and feature tests share one notion of blank; evaluation keeps multiplicity -------------------
+    from ..core import blank
+    ctx.check("R5", parse, bool(blank.split_on_any_blank(parse.node)), "tokenises-on-any-blank", "DepSet.parse tokenises with str.split() (any whitespace)")
+    bad = blank.space_literal_tests(parse.node)
+    ctx.check("R5", parse, not bad, "blank-notion:" + (repr(bad[0][2]) if bad else ""),
+              "no question about token boundaries is asked of the dependency text with a literal ' '",
+              f"DepSet.parse tokenises `{bad[0][1] if bad else ''}` on any whitespace but also tests it with the literal {bad[0][2] if bad else ''!r}: a token delimited by "
+              f"a tab or newline (line-wrapped SRC_URI) is a token for the parser and invisible to that test", node=bad[0][0] if bad else None)
+    be = P.func("pkgcore.restrictions.boolean", "base.evaluate_conditionals")
+    DEDUP = {"set", "frozenset", "fromkeys", "stable_unique", "unique", "iter_stable_unique", "OrderedDict", "dict"}
+    dd = [c for c in A.calls(be.node) if ((dotted(c.func) or "").split(".")[-1] in DEDUP or A.call_attr(c) in DEDUP)]
+    ctx.check("R5", be, not dd, "evaluation-keeps-multiplicity",
+              "evaluate_conditionals never de-duplicates the evaluated members",
+              f"base.evaluate_conditionals passes the evaluated members through `{A.unparse(dd[0])[:60] if dd else ''}`: in an exactly-one-of / at-most-one-of group the "
+              f"same token occurring twice (e.g. through an enabled conditional) makes the group unsatisfiable; after de-duplication it is satisfiable", node=dd[0] if dd else None)
+    ctx.floor("R5", 3)
+
 
 MUTANTS = [
     {"name": "render-justone-missing", "file": "src/pkgcore/ebuild/conditionals.py", "old": "    elif isinstance(node, boolean.JustOneRestriction):\n        visit(\"^^ (\")\n        iterable = node.restrictions\n", "new": "", "rule": "R1"},
